@@ -203,3 +203,44 @@ func TestObserve(t *testing.T) {
 	evid.R.Note("observed (not asserted): db.Close() after one IterateRange returns: %v", d2.Close())
 	evid.R.Case("observe", false, nil, "observe")
 }
+
+// Limited scans after a restore that brings a staged delete back (fixed history, every tier; added after the seed regression showed that
+// seeded change C12-m - a counter of staged deletes that went stale across RestoreSnapshot - was met by the generated histories at some
+// seeds only): Del of a stored key, Snapshot, Set of the same key, Restore -> the key is staged for deletion again and every limited scan
+// must step over it, in both directions, through Range and Iterate, through the root and through a prefixed view.
+func TestRegressLimitedScanAfterRestoredDelete(t *testing.T) {
+	out := ""
+	for _, pfx := range []string{"", "P"} {
+		d := mk(pfx+"a", "1", pfx+"b", "2", pfx+"c", "3")
+		root := diffdb.New(d, []byte(pfx))
+		root.Del([]byte("a"))
+		id := root.Snapshot()
+		root.Set([]byte("a"), []byte("9"))
+		if err := root.RestoreSnapshot(id); err != nil {
+			t.Fatalf("RestoreSnapshot: %v", err)
+		}
+		what := fmt.Sprintf("{%sa=1,%sb=2,%sc=3} New(%q): Del(a); Snapshot; Set(a,9); Restore; ", pfx, pfx, pfx, pfx)
+		out += expect(what+"Range(a,c,1,fwd)", root.Range([]byte("a"), []byte("c"), 1, false), "b", "2")
+		out += expect(what+"Range(a,c,2,fwd)", root.Range([]byte("a"), []byte("c"), 2, false), "b", "2", "c", "3")
+		out += expect(what+`Iterate("",1,fwd)`, root.Iterate([]byte{}, 1, false), "b", "2")
+		out += expect(what+`Iterate("",2,fwd)`, root.Iterate([]byte{}, 2, false), "b", "2", "c", "3")
+		d.Close()
+		// the mirror image: the deleted key is the last one, scans in reverse
+		d = mk(pfx+"a", "1", pfx+"b", "2", pfx+"c", "3")
+		root = diffdb.New(d, []byte(pfx))
+		root.Del([]byte("c"))
+		id = root.Snapshot()
+		root.Set([]byte("c"), []byte("9"))
+		if err := root.RestoreSnapshot(id); err != nil {
+			t.Fatalf("RestoreSnapshot: %v", err)
+		}
+		what = fmt.Sprintf("{%sa=1,%sb=2,%sc=3} New(%q): Del(c); Snapshot; Set(c,9); Restore; ", pfx, pfx, pfx, pfx)
+		out += expect(what+"Range(a,c,1,rev)", root.Range([]byte("a"), []byte("c"), 1, true), "b", "2")
+		out += expect(what+`Iterate("",2,rev)`, root.Iterate([]byte{}, 2, true), "b", "2", "a", "1")
+		d.Close()
+	}
+	if out != "" {
+		t.Fatalf("limited scan after a restored staged delete: %s", out)
+	}
+	evid.R.Case("regress|limited-scan-after-restored-delete", true, nil, "regress")
+}
